@@ -9,7 +9,7 @@ from __future__ import annotations
 
 import ast
 
-from ..astutil import ancestors, calls_in, dotted, enclosing_stmt, handler_catches, handler_reraises, is_catch_all, is_within, kwarg, src, walk_local
+from ..astutil import ancestors, calls_in, deref, dotted, enclosing_stmt, handler_catches, handler_reraises, is_catch_all, is_within, kwarg, src, walk_local
 from ..cfg import cfg_of
 from ..loader import AnalysisError
 from .backends import ENTRY, INTERFACE, backend_classes, class_callgraph, decorators_of, is_retried, own_methods, transport_calls
@@ -148,6 +148,70 @@ def _rewinds(stmts, p):
             if isinstance(c.func, ast.Attribute) and c.func.attr == 'seek' and isinstance(c.func.value, ast.Name) and c.func.value.id == p and c.args and isinstance(c.args[0], ast.Constant) and c.args[0].value == 0 and len(c.args) == 1:
                 return True
     return False
+
+
+def r1b_retry_callbacks_cannot_fail(ctx):
+    """The callables handed to backoff (giveup=, on_backoff=, on_giveup=, on_success=) run inside the retry loop: an
+    exception escaping from one of them ends the loop at once, whatever max_tries says.  They are called with every
+    exception the decorator catches - transport errors have no `.response` - so an attribute of the exception that only
+    status errors carry may be read only behind an isinstance test of that exception."""
+    corpus = ctx.corpus
+    n = 0
+    for short in ('s3c', 'b2', 'local'):
+        m = corpus.module(short)
+        cbs = []
+        for c in ast.walk(m.tree):
+            if isinstance(c, ast.Call) and ((dotted(c.func) or '').endswith('on_exception') or ((dotted(c.func) or '').endswith('partial') and c.args and (dotted(c.args[0]) or '').endswith('on_exception')) or (isinstance(c.func, ast.Name) and c.func.id in m.assigns)):
+                for kwn in ('giveup', 'on_backoff', 'on_giveup', 'on_success'):
+                    v = kwarg(c, kwn)
+                    if v is None:
+                        continue
+                    for x in (v.elts if isinstance(v, (ast.List, ast.Tuple)) else [v]):
+                        if isinstance(x, ast.Name) and x.id in m.functions:
+                            cbs.append((kwn, m.functions[x.id]))
+        seen = set()
+        for kwn, f in cbs:
+            if f.key in seen:
+                continue
+            seen.add(f.key)
+            ctx.analysed(f)
+            for a in ast.walk(f.node):
+                if not (isinstance(a, ast.Attribute) and a.attr in ('response', 'request') and isinstance(a.ctx, ast.Load)):
+                    continue
+                n += 1
+                base = a.value
+                bd = deref(f.node, base) if isinstance(base, ast.Name) else base
+                guarded = False
+                cur = a
+                while cur is not None and cur is not f.node:
+                    par = getattr(cur, '_parent', None)
+                    tests = []
+                    if isinstance(par, ast.BoolOp) and isinstance(par.op, ast.And):
+                        idx = next((i for i, v_ in enumerate(par.values) if any(cur is y for y in ast.walk(v_))), 0)
+                        tests = par.values[:idx]
+                    elif isinstance(par, ast.If) and any(cur is y for st in par.body for y in ast.walk(st)):
+                        tests = [par.test]
+                    for t in tests:
+                        for ic in ast.walk(t):
+                            if isinstance(ic, ast.Call) and dotted(ic.func) == 'isinstance' and ic.args:
+                                e0 = ic.args[0]
+                                e0d = deref(f.node, e0) if isinstance(e0, ast.Name) else e0
+                                if ast.dump(e0) == ast.dump(base) or ast.dump(e0d) == ast.dump(bd):
+                                    guarded = True
+                    cur = par
+                # try/except AttributeError around it also makes it harmless
+                if any(isinstance(t_, ast.Try) and any(any(x in ('AttributeError', 'Exception') for x in handler_catches(h)) or not handler_catches(h) for h in t_.handlers) and any(a is y for st in t_.body for y in ast.walk(st)) for t_ in ast.walk(f.node)):
+                    guarded = True
+                ctx.check(
+                    guarded,
+                    'C12.R1',
+                    f'{func_label(f)}|retry-callback-cannot-fail',
+                    loc(f, a),
+                    f'{f.name} ({kwn}=): `.{a.attr}` of the exception is read behind an isinstance test',
+                    f'{f.name} is called by backoff ({kwn}=) for every caught exception, and reads `{src(a, 50)}` without an isinstance test: for a transport error (no `.{a.attr}`) it raises AttributeError inside the retry loop - '
+                    'the transient fault is not retried at all',
+                )
+    ctx.count('retry_callback_attribute_reads', n)
 
 
 def r2_rewind(ctx, rule='C12.R2', only=None, floor=6):
@@ -503,6 +567,7 @@ def r5_no_stale_credentials(ctx):
 def run(ctx):
     r5_no_stale_credentials(ctx)
     r1_bounded_retry(ctx)
+    r1b_retry_callbacks_cannot_fail(ctx)
     r2_rewind(ctx)
     r2c_fresh_body_iterator(ctx)
     r3_wrappers(ctx)
